@@ -11,6 +11,7 @@ open Srtla Srtla.Gen Srtla.Conn Srtla.Select Srtla.Rtt Srtla.Link Scalar
 set_option linter.unusedSectionVars false
 
 variable {F : Type} [Scalar F]
+variable {fa : List (Nat × Nat)}
 
 theorem nodup_getElem?_inj {α : Type} {l : List α} (h : l.Nodup) {i j : Nat} {a : α}
     (hi : l[i]? = some a) (hj : l[j]? = some a) : i = j := by
@@ -157,7 +158,7 @@ iff `probes` — `send_stall_probes` on the others. -/
 def routeTo (s1 : Sys F) (sel : Nat) (pkt : Bytes) (seq : Option Nat) (now : Nat) (probes : Bool) : Sys F × Out :=
   let r := forwardVia s1 sel pkt seq now
   if probes then
-    let p := stallProbesGo pkt seq now sel r.1.links 0 r.1.failNext
+    let p := stallProbesGo r.1.failAfter pkt seq now sel r.1.links 0 r.1.failNext
     ({ r.1 with links := p.1, failNext := p.2.2, clientKnown := true }, { r.2 with wire := r.2.wire ++ p.2.1 })
   else ({ r.1 with clientKnown := true }, r.2)
 
@@ -249,7 +250,7 @@ theorem routeTo_links (s1 : Sys F) (sel : Nat) (pkt : Bytes) (seq : Option Nat) 
       obtain ⟨-, g2d, g2b, g2c⟩ := g2
       rw [Nat.zero_add] at g2b g2c g2d
       have hw : wireOf l1.core.connId ((forwardVia s1 sel pkt seq now).2.wire ++
-          (stallProbesGo pkt seq now sel (forwardVia s1 sel pkt seq now).1.links 0
+          (stallProbesGo (forwardVia s1 sel pkt seq now).1.failAfter pkt seq now sel (forwardVia s1 sel pkt seq now).1.links 0
             (forwardVia s1 sel pkt seq now).1.failNext).2.1) = b2 := by
         rw [f2, wireOf_append, wireOf_tag_other _ _ _ (ids_ne hnd hlsel hl1 (Ne.symm hi)),
           g3 (by rw [hids2]; exact hnd), List.nil_append]
